@@ -11,15 +11,15 @@ import (
 
 // StructOpt configures a structural subject (C02-C05, C13, C14 share it).
 type StructOpt struct {
-	Env      progen.EnvOpt
-	NTypes   int
-	Roles    []string // equal equalc compare comparec hash clone deepcopy gostring ctx sort keys min max contains unique set union intersect filter ...
-	Depth    int
-	TypeOK   func(*progen.Type) bool
-	Enumerated []*progen.Type // extra fixed types (bounded-exhaustive slices)
+	Env        progen.EnvOpt
+	NTypes     int
+	Roles      []string // equal equalc compare comparec hash clone deepcopy gostring ctx sort keys min max contains unique set union intersect filter ...
+	Depth      int
+	TypeOK     func(*progen.Type) bool
+	Enumerated []*progen.Type                       // extra fixed types (bounded-exhaustive slices)
 	EnumFn     func(env *progen.Env) []*progen.Type // extra types computed from the environment
-	EnumChunks bool           // every other subject takes its types from the bounded-exhaustive enumeration (fixed environment)
-	TopShapes  bool           // wrap most drawn types in a top-level pointer / slice / map (DeepCopy's argument forms)
+	EnumChunks bool                                 // every other subject takes its types from the bounded-exhaustive enumeration (fixed environment)
+	TopShapes  bool                                 // wrap most drawn types in a top-level pointer / slice / map (DeepCopy's argument forms)
 }
 
 // DrawStructural draws an environment and NTypes distinct argument types and emits the wrappers
